@@ -73,7 +73,7 @@ def explore(it, fn, max_paths=MAX_PATHS):
             # an exception escaping the harness on a feasible path is a failed implicit obligation
             r = solve.check_sat(ctx.pc, want_model=True)
             if r.status != "unsat":
-                uncaught.append(dict(exc=repr(e.exc), status=r.status,
+                uncaught.append(dict(exc=repr(e.exc) + " at " + getattr(e, "where", "?"), status="candidate" if getattr(r, "inexact", False) else r.status,
                                      model=_model_inputs(r.model, ctx.inputs), path=list(ctx.taken),
                                      backend=r.backend, time_s=r.time_s))
         except Unsupported as e:
@@ -84,7 +84,7 @@ def explore(it, fn, max_paths=MAX_PATHS):
         for o in ctx.obls:
             obls.append(dict(name=o.name, goal=o.goal_text, status=o.status, backend=o.backend,
                              time_s=o.time_s, detail=o.detail, path=n_paths, label=o.label,
-                             model=_model_inputs(o.model, o.inputs) if o.status == "sat" else None))
+                             model=_model_inputs(o.model, o.inputs) if o.status in ("sat", "candidate") and o.model is not None else None))
         inlined |= ctx.inlined
         lemma_uses |= getattr(ctx, "lemma_uses", set())
         notes.extend(ctx.notes)
@@ -259,9 +259,10 @@ def _fold(rep, contract_mod, r, meta, verbose):
             ob.contract_mod = contract_mod
             rep.add(ob)
         else:
-            bad = [o for o in os_ if o["status"] != "unsat"][0]
+            cands = [o for o in os_ if o["status"] == "candidate"]
+            bad = (cands or [o for o in os_ if o["status"] != "unsat"])[0]
             ob = Obligation(oid, clause, bad["goal"], UNDECIDED, bad["backend"], t, label=lab, vcs=len(os_),
-                            detail="solver: %s" % bad["detail"])
+                            detail="solver: %s" % bad["detail"], model=bad.get("model") if cands else None)
             ob.harness = hname
             ob.contract_mod = contract_mod
             rep.add(ob)
